@@ -179,9 +179,16 @@ example : (readSeq (Rd.new .gz 1 [1, 2] [] []) [0, 1, 0]).1 = [.found [1], .foun
 /-- the temporary file written by `decompress_to_ntf` (journal / evtx inside gz, bz2, lz4, tar)
 holds exactly the decompressed bytes, for every chunking -/
 theorem extract_eq (d : Bytes) (cs : List Nat) : decompressToNtf d cs = d := by
-  unfold decompressToNtf
-  rw [copyLoop_spec NTF_BUF_SZ (by decide) _ _ _ (by simp)]
+  unfold decompressToNtf decompressToNtfG
+  rw [show copyLoopG NTF_COPY_STOPS_ONLY_AT_EOF = copyLoop from rfl, copyLoop_spec NTF_BUF_SZ (by decide) _ _ _ (by simp)]
   simp
+
+/-- counter-model (seeded change C05-d): a copy loop that ALSO stops after a read shorter than its buffer
+truncates the temporary file as soon as the decoder returns a short chunk before the end of the data
+(lz4_flex's `FrameDecoder::read` never crosses a frame block boundary) -/
+theorem short_read_stop_truncates :
+    decompressToNtfG false [1, 2, 3, 4, 5] [2, 3] = [1, 2] ∧ decompressToNtfG true [1, 2, 3, 4, 5] [2, 3] = [1, 2, 3, 4, 5] := by
+  decide
 
 example : decompressToNtf [1, 2, 3, 4, 5] [2, 0, 9] = [1, 2, 3, 4, 5] := by decide
 
